@@ -455,7 +455,7 @@ fn main() {
                 "payload is a position-revealing counter pattern".into(),
                 "liveness judged only when D*T + 2d + 2 < (retx_max+1)*T (no legitimate retransmit exhaustion)".into(),
             ];
-            let (wall, cap) = tier.pick((Duration::from_secs(20), 3_000_000), (Duration::from_secs(300), 40_000_000));
+            let (wall, cap) = tier.pick((Duration::from_secs(45), 3_000_000), (Duration::from_secs(300), 40_000_000));
             run_tcp_configs(&mut rep, c06_configs(tier), wall, cap);
             {
                 // bounded delay without loss: fixed one-way latency on a FIFO wire, writer
@@ -482,7 +482,7 @@ fn main() {
         "C16" => {
             let mut rep = Report::new("C16", tier, "model_checking", "netk");
             rep.rule = "same state graph as C06 with cap / MSS / window invariants evaluated on every state and every emitted packet".into();
-            let (wall, cap) = tier.pick((Duration::from_secs(20), 3_000_000), (Duration::from_secs(300), 40_000_000));
+            let (wall, cap) = tier.pick((Duration::from_secs(45), 3_000_000), (Duration::from_secs(300), 40_000_000));
             run_tcp_configs(&mut rep, c16_configs(tier), wall, cap);
             {
                 // several connections on one host: loopback and cross-host in one egress pass
@@ -503,7 +503,7 @@ fn main() {
         "C13" => {
             let mut rep = Report::new("C13", tier, "model_checking", "netk");
             rep.rule = "explicit-state BFS over lifecycle actions of both applications (connect / cancel / accept / write / shutdown / drop / listener drop / re-bind) interleaved with wire actions on the real stack; from every state the fair suffix closes everything, checks the socket/binding/connection tables through the cfg-guarded count hook and then re-uses every port and 4-tuple".into();
-            let (wall, cap) = tier.pick((Duration::from_secs(25), 4_000_000), (Duration::from_secs(900), 40_000_000));
+            let (wall, cap) = tier.pick((Duration::from_secs(50), 4_000_000), (Duration::from_secs(900), 40_000_000));
             let mut all_feats: Vec<String> = vec![];
             for c in c13_configs(tier) {
                 let mut b = BfsConfig::new(&c.name);
@@ -552,6 +552,15 @@ fn main() {
                 rep.add_part(st.part);
             }
             {
+                // graceful close by drop while written bytes are still in flight
+                let mut d = vx_core::DfsConfig::new("dropped-with-bytes-in-flight", 0);
+                d.wall = wall;
+                let thorough = tier == Tier::Thorough;
+                let st = vx_core::explore_dfs(&d, move |ch| fixedlat::drop_after_write_scenario(ch, thorough));
+                rep.violations.extend(st.violations);
+                rep.add_part(st.part);
+            }
+            {
                 // dual-stack host, two wildcard listeners on one port, one of them closed
                 let mut d = vx_core::DfsConfig::new("dual-stack-listener-close", 0);
                 d.wall = wall;
@@ -584,7 +593,7 @@ fn main() {
         "C17" => {
             let mut rep = Report::new("C17", tier, "model_checking", "netk");
             rep.rule = "explicit-state BFS over histories of bind / listen / udp-connect / tcp-connect(+accept) / close on two hosts (one with two addresses); every step compared with a reference socket table; from every state a probe sweep sends one tagged UDP datagram and one TCP connect from every host to every (address, port) and checks which socket observes it".into();
-            let (wall, cap) = tier.pick((Duration::from_secs(25), 2_000_000), (Duration::from_secs(900), 30_000_000));
+            let (wall, cap) = tier.pick((Duration::from_secs(50), 2_000_000), (Duration::from_secs(900), 30_000_000));
             for c in c17_configs(tier) {
                 let mut b = BfsConfig::new(&c.name);
                 b.scenario = c.describe();
@@ -704,6 +713,19 @@ fn replay(path: &str) {
                 for a in &v.actions {
                     println!("  {a}");
                 }
+                println!("VIOLATION clause={} : {}", v.clause, v.detail);
+                std::process::exit(1);
+            }
+            None => println!("no violation on this execution"),
+        }
+        return;
+    }
+    if prop == "C13" && scenario.starts_with("c13-drop-after-write") {
+        println!("replaying {prop}: {scenario}");
+        let mut ch = vx_core::Chooser::from_choices(&choices);
+        let e = fixedlat::drop_after_write_scenario(&mut ch, false);
+        match e.violation {
+            Some(v) => {
                 println!("VIOLATION clause={} : {}", v.clause, v.detail);
                 std::process::exit(1);
             }
